@@ -365,6 +365,21 @@ pub fn generate(g: &mut Gen, thorough: bool) {
         emit(g, &res, "to:cart ellps_0=intl ellps_1=GRS80", &Expect::Steps(vec![("cart ellps=intl".to_string(), false), ("helmert x=1".to_string(), false), ("cart ellps=GRS80".to_string(), true)]), "witness-given-arguments", true);
         emit(g, &res, "to:utm zone=32 e=intl", &Expect::Steps(vec![("utm zone=32 ellps=intl".to_string(), false)]), "witness-given-arguments", true);
     }
+    // bodies whose steps are made of modifiers only: refused, at once, however deep they sit
+    {
+        let res = vec![
+            ("b:mods".to_string(), "addone < inv".to_string()),
+            ("b:two".to_string(), "inv omit_fwd".to_string()),
+            ("b:mid".to_string(), "addone | omit_inv omit_fwd | addone".to_string()),
+            ("b:nest".to_string(), "addone | b:two inv".to_string()),
+        ];
+        for def in ["b:mods", "b:two", "b:mid", "b:nest", "b:two inv", "addone | b:mid", "inv inv", "addone | inv omit_inv"] {
+            // (value or error in bounded time: the oracle of C09 watches the clock, the model says which error)
+            let data = super::probe_data(1);
+            g.push(super::c09::case("default", &res, def, &data), "oracle-modifier-only-steps", true);
+            g.push(super::op_line("default", &res, &[], def, "both", "F", &data), "witness-modifier-only-steps", true);
+        }
+    }
     let n = if thorough { 25000 } else { 2200 };
     for _ in 0..n {
         let nm = 1 + g.rng.below(6);
